@@ -442,6 +442,35 @@ class Body:
                 work.extend(self.operand_prov(o))
         return frozenset(out)
 
+    def arith_steps(self, rv):
+        """[(op, [integer constants among its operands])] for the binary operations on the value chain of an rvalue (the stored
+        value of `*counter = ..`): `*x += 1` gives [("AddWithOverflow", [1])]"""
+        out, seen = [], set()
+        work = []
+        if rv.get("k") == "binop":
+            out.append((rv["op"], [int(o["int"]) for o in (rv["a"], rv["b"]) if o["k"] == "const" and "int" in o]))
+        for o in [rv[k] for k in ("a", "b", "op") if isinstance(rv.get(k), dict)] + list(rv.get("ops", [])):
+            work.extend(self.operand_prov(o))
+        while work:
+            t = work.pop()
+            if t in seen:
+                continue
+            seen.add(t)
+            if t[0] != "val":
+                continue
+            r2 = self.blocks[t[1][0]]["stmts"][t[1][1]]["rv"]
+            if r2.get("k") == "binop":
+                out.append((r2["op"], [int(o["int"]) for o in (r2["a"], r2["b"]) if o["k"] == "const" and "int" in o]))
+            for o in [r2[k] for k in ("a", "b", "op") if isinstance(r2.get(k), dict)] + list(r2.get("ops", [])):
+                work.extend(self.operand_prov(o))
+            if "p" in r2 and not any(isinstance(r2.get(k), dict) for k in ("a", "b", "op")):
+                work.extend(self.place_prov(r2["p"]))
+        return out
+
+    def advances(self, rv):
+        """the stored value is the old one plus / minus a non-zero constant"""
+        return any(op.startswith(("Add", "Sub")) and any(c != 0 for c in cs) for (op, cs) in self.arith_steps(rv))
+
     def term_name(self, term):
         """Human-readable, line-free name of a provenance term."""
         rk, rd, path = term
